@@ -19,8 +19,8 @@ structure Inv (s : Sys) : Prop where
       c.cancelled = true ∧ c.sources = [] ∧ ∀ r ∈ s.regs, r.cid ≠ cid
   cancelStop : ∀ (cid : Nat) (c : Ctl), s.objs[cid]? = some c → c.cancelled = c.stopped
 
-theorem swNext_some {srcs : List (Wid × Nat)} {a : List Nat} {ws : List Wid} {w : Wid} {rest : List Wid}
-    (h : swNext srcs a ws = some (w, rest)) : ¬((aget w srcs).isSome = true ∧ w.gvk ∈ a) := by
+theorem swNext_some {srcs : List (Wid × Nat)} {a : List Nat} {st : List Wid} {ws : List Wid} {w : Wid} {rest : List Wid}
+    (h : swNext srcs a st ws = some (w, rest)) : ¬((aget w srcs).isSome = true ∧ (w.gvk ∈ a ∨ w ∈ st)) := by
   induction ws with
   | nil => simp [swNext] at h
   | cons x xs ih =>
@@ -174,27 +174,27 @@ theorem TFacts_self {s : Sys} {i : Nat} {t : Thread} {ch : Choice} {pc' : Pc} {a
     simp only [Option.some.injEq, Prod.mk.injEq] at hn
     obtain ⟨rfl, rfl⟩ := hn
     simp only [TFacts] at hold
-    cases hsw : swNext (srcsOf s cid) s.tracked ws with
+    cases hsw : swNext (srcsOf s cid) s.tracked [] ws with
     | none => exact trivial
     | some p =>
       obtain ⟨w, rest⟩ := p
       simp only [swPc, TFacts, Act.apply]
       refine ⟨hold, ?_, swNext_some hsw⟩
       intro r hr _
-      exact hinv.liveTracked _ _ (hinv.regLive r hr)
-  case swGI.isFalse cid a wid rest _ =>
+      exact Or.inl (hinv.liveTracked _ _ (hinv.regLive r hr))
+  case swGI.isFalse cid a st wid rest _ =>
     simp only [Option.some.injEq, Prod.mk.injEq] at hn
     obtain ⟨rfl, rfl⟩ := hn
     obtain ⟨e1, e2, e3, _⟩ := srcsOf_apply_getInformer wid.gvk false { s with threads := ths } cid
     simp only [TFacts] at hold ⊢
     rw [e1, e2, e3]; exact hold
-  case swAH.isFalse.isTrue cid a wid rest hh hnf _ =>
+  case swAH.isFalse.isTrue cid a st wid rest hh hnf _ =>
     simp only [Option.some.injEq, Prod.mk.injEq] at hn
     obtain ⟨rfl, rfl⟩ := hn
     have hv : cid < s.objs.length := hval cid rfl
     simp only [TFacts] at hold
     obtain ⟨hst, hJ, hK⟩ := hold
-    cases hsw : swNext (aset wid s.nextReg (srcsOf s cid)) (wid.gvk :: a) rest with
+    cases hsw : swNext (aset wid s.nextReg (srcsOf s cid)) a (wid :: st) rest with
     | none => exact trivial
     | some p =>
       obtain ⟨w, rest'⟩ := p
@@ -204,14 +204,16 @@ theorem TFacts_self {s : Sys} {i : Nat} {t : Thread} {ch : Choice} {pc' : Pc} {a
       · intro r hr hc
         simp only [Act.apply] at hr
         rcases List.mem_cons.1 hr with rfl | hr'
-        · exact List.mem_cons_self
-        · exact List.mem_cons_of_mem _ (hJ r hr' hc)
+        · exact Or.inr List.mem_cons_self
+        · rcases hJ r hr' hc with h1 | h2
+          · exact Or.inl h1
+          · exact Or.inr (List.mem_cons_of_mem _ h2)
       · rw [srcsOf_addReg]
         simp only [if_true]
         have hv' : cid < ({ s with threads := ths } : Sys).objs.length := hv
         rw [if_pos hv']
         exact swNext_some hsw
-  case swAH.isFalse.isFalse cid a wid rest hh _ hx => exact absurd rfl hx
+  case swAH.isFalse.isFalse cid a st wid rest hh _ hx => exact absurd rfl hx
   case xwCW cid ws =>
     obtain ⟨rfl, rfl, _⟩ := acquire_some hn
     cases hxw : xwNext (srcsOf s cid) ws with
